@@ -49,7 +49,8 @@ def concrete(sym, shadow):
     if sym == "D":
         return {"op": "delete", "id": 1}
     if sym == "E":
-        return {"op": "configure", "spec": [["a", 1], ["b", 1]]}
+        # (both entry points of a reconfiguration take turns: configure_agents(spec) and Model.configure(config))
+        return dict({"op": "configure", "spec": [["a", 1], ["b", 1]]}, **({"via": "model"} if len(shadow.get("ever", ())) % 2 else {}))
     if sym == "F":
         return {"op": "reset"}
     if sym == "G":
@@ -120,6 +121,8 @@ def generate(spec):
         elif r < 0.74:
             spec_ = [[t, rng.choice([0, 1, 2, 3])] for t in rng.sample(["a", "b"], rng.choice([1, 2]))]
             ops.append({"op": "configure", "spec": spec_})
+            if rng.random() < 0.4:
+                ops[-1]["via"] = "model"        # Model.configure(config) instead of configure_agents(spec)
             n_live_est = sum(c for _, c in spec_)
             next_id += n_live_est
         elif r < 0.77:
